@@ -1,50 +1,28 @@
 /-
 Line-protocol driver: one operation per input line (tab-separated fields, JSON payloads),
 one answer line per operation.  Runs the executable definitions of the model so that the
-correspondence check can diff them against the implementation.
+correspondence check can diff them against the implementation.  The first field names
+the stream; each stream's handler lives in AslModel/Drv/<Stream>.lean.
 -/
 import AslModel
-open Asl
-
-def js (j : Json) : String := String.ofList (renderC (canon j))
-
-def rd (s : String) : Option Json := parseJson s.toList
-
-/-- a JSON string or null → optional path text -/
-def rdPath (s : String) : Option (Option Str) :=
-  match rd s with
-  | some (.str p) => some (some p)
-  | some .null => some none
-  | _ => none
-
-def showRes : Except PErr Json → String
-  | .ok v => "ok\t" ++ js v
-  | .error e => "err\t" ++ e.name
-
-def handlePaths : List String → String
-  | ["put", doc, path, res] =>
-    match rd doc, rdPath path, rd res with
-    | some d, some p, some r => showRes (applyResultPath d r p)
-    | _, _, _ => "unsupported"
-  | ["get", doc, path] =>
-    match rd doc, rd path with
-    | some d, some (.str p) => showRes (applyJsonPathText d p)
-    | _, _ => "unsupported"
-  | ["path", doc, ctx, path] =>
-    match rd doc, rd ctx, rdPath path with
-    | some d, some c, some p => showRes (applyPath d c p)
-    | _, _, _ => "unsupported"
-  | ["parse", path] =>
-    match rd path with
-    | some (.str p) => match parseRef p with
-      | some segs => "ok\t" ++ js (.arr (segs.map .str))
-      | none => "err\tnoparse"
-    | _ => "unsupported"
-  | _ => "bad-op"
+open Asl Asl.Drv
 
 def handle (line : String) : String :=
   match line.splitOn "\t" with
-  | "paths" :: rest => handlePaths rest
+  | "paths" :: rest => Asl.Drv.Paths.handle rest
+  | "names" :: rest => Asl.Drv.Names.handle rest
+  | "store" :: rest => Asl.Drv.Store.handle rest
+  | "api" :: rest => Asl.Drv.Api.handle rest
+  | "choice" :: rest => Asl.Drv.Choice.handle rest
+  | "ts" :: rest => Asl.Drv.Ts.handle rest
+  | "templates" :: rest => Asl.Drv.Templates.handle rest
+  | "quota" :: rest => Asl.Drv.Quota.handle rest
+  | "retry" :: rest => Asl.Drv.Retry.handle rest
+  | "interp" :: rest => Asl.Drv.Interp.handle rest
+  | "engine" :: rest => Asl.Drv.Engine.handle rest
+  | "amqp" :: rest => Asl.Drv.Amqp.handle rest
+  | "lint" :: rest => Asl.Drv.Lint.handle rest
+  | "join" :: rest => Asl.Drv.Join.handle rest
   | "echo" :: [j] => match rd j with
     | some v => "ok\t" ++ js v
     | none => "unsupported"
